@@ -53,6 +53,9 @@ type Step struct {
 	Ops []*gen.Op  `json:"ops,omitempty"`
 	// Multi names the populated fields of a multi-field message: any two or three of p,e,o.
 	Multi string `json:"multi,omitempty"`
+	// Rep > 0 repeats the step Rep more times (long streams: the same election id
+	// announced again and again is legal); keeps long cases small and shrinkable.
+	Rep int `json:"rep,omitempty"`
 }
 
 func (s Step) String() string {
@@ -292,7 +295,15 @@ func Run(sc Script, c Checks) (*ev.Verdict, *Stats) {
 			}
 		}
 	}()
-	for i, stp := range sc.Steps {
+	var steps []Step
+	for _, stp := range sc.Steps {
+		n := stp.Rep
+		stp.Rep = 0
+		for ; n >= 0; n-- {
+			steps = append(steps, stp)
+		}
+	}
+	for i, stp := range steps {
 		w.step = i
 		for len(w.sess) <= stp.S {
 			w.sess = append(w.sess, &sessModel{sent: map[uint64]*gen.Op{}, results: map[uint64][]spb.AFTResult_Status{}, answered: map[uint64]bool{}})
